@@ -36,6 +36,8 @@ TReset == /\ IsEvent("Reset")
                              ELSE FileNode(Ev.pre[i].mode)
              IN fs' = [loc \in anc |-> IF loc \in pre THEN Pre(loc) ELSE DirNode(493)]
 
+\* the process's umask (022) applies to mkdir and open(O_CREAT)
+Masked(m) == m - ((m \div 16) % 2) * 16 - ((m \div 2) % 2) * 2
 Dangerous(t) == t.abs \/ \E i \in 1..Len(t.c) : t.c[i] = ".."
 Inside(loc) == Below(root, loc)
 \* did resolving this path pass through a symbolic link?  (it did iff resolving it differs from
@@ -66,7 +68,7 @@ TSys ==
             /\ UNCHANGED <<fs, fds, danger, known>>
        [] c = "openr" -> UNCHANGED <<fs, fds, danger, known>>
        [] c = "mkdir" ->
-            LET o == Mkdir(fs, cwd, Ev.p, Ev.mode) IN
+            LET o == Mkdir(fs, cwd, Ev.p, Masked(Ev.mode)) IN
             /\ MutatingAllowed /\ Chk("mkdir outcome", o.res = Ev.res)
             /\ fs' = o.f /\ (IF o.res = "ok" THEN ConfinedOrKnown(o.loc, Ev.p) ELSE known' = known)
             /\ UNCHANGED <<fds, danger>>
@@ -76,7 +78,7 @@ TSys ==
             /\ fs' = o.f /\ (IF o.res = "ok" THEN ConfinedOrKnown(o.loc, Ev.p) ELSE known' = known)
             /\ UNCHANGED <<fds, danger>>
        [] c = "creat" ->
-            LET o == OpenExcl(fs, cwd, Ev.p, Ev.mode) IN
+            LET o == OpenExcl(fs, cwd, Ev.p, Masked(Ev.mode)) IN
             /\ MutatingAllowed
             /\ Chk("C10 PlaceholderNotFollowed: file opened for writing without O_CREAT|O_EXCL", Ev.excl /\ Ev.creatflag)
             /\ Chk("open outcome", o.res = Ev.res)
@@ -120,8 +122,9 @@ TFinal == /\ IsEvent("FinalTree")
           /\ Chk("model tree = final tree", \A loc \in DOMAIN fs : (Inside(loc) /\ loc # root /\ fs[loc].ty # "none") => \E i \in 1..Len(Ev.tree) : Ev.tree[i].loc = loc)
           /\ UNCHANGED <<fs, cwd, root, fds, danger, mode, known>>
 \* what the generator expects to find (C06): Expect{items: [loc, ty, size, crc, mtime (or -1), mode (or -1), t]}
+\* (ty = "unsafe": a link with an absolute or '..' target - outside the guarantee: the link or its placeholder)
 ExpOK(x, tree) == \E i \in 1..Len(tree) :
-   /\ tree[i].loc = x.loc /\ tree[i].ty = x.ty
+   /\ tree[i].loc = x.loc /\ (IF x.ty = "unsafe" THEN tree[i].ty \in {"file", "link"} ELSE tree[i].ty = x.ty)
    /\ (x.ty = "file" => (tree[i].size = x.size /\ tree[i].crc = x.crc))
    /\ (x.mtime # <<-1>> => tree[i].mtime = x.mtime)
    /\ (x.mode # -1 => tree[i].mode = x.mode)
